@@ -510,7 +510,9 @@ def fine_point(path):
 
 
 def ip_acquire(path, blocking=True):
-    path = str(path)
+    path = os.fsdecode(path) if isinstance(path, bytes) else str(path)
+    if not os.path.isabs(path):
+        raise RuntimeError(f"harness: relative lock path {path!r}")
     if _dead() or current_proc() is None:
         raise greenlet.GreenletExit()
     pid = current_proc().pid
@@ -528,7 +530,7 @@ def ip_acquire(path, blocking=True):
 
 
 def ip_release(path):
-    path = str(path)
+    path = os.fsdecode(path) if isinstance(path, bytes) else str(path)
     if _dead():
         return
     p = current_proc()
